@@ -70,6 +70,15 @@ Theorem C15_process_lex : forall src vals caps r els,
 Proof. exact process_lex_spec. Qed.
 Print Assumptions C15_process_lex.
 
+(** [is_source_slice_literal] (which decides whether a fix may touch a source range) on raw slices
+    that tile the source - e.g. those [process] makes, by C15_render_tiling - answers exactly
+    "every raw slice overlapping the range is literal". *)
+Theorem C15_literal : forall src rs a b,
+  raw_tiling src rs 0 -> a < b -> b <= len src ->
+  is_source_slice_literal rs a b = lit_spec rs a b.
+Proof. exact is_source_slice_literal_spec. Qed.
+Print Assumptions C15_literal.
+
 (** [iter_segments] as it was before fix 7ed96a0: mapping depending on earlier tokens, panics. *)
 Theorem C15_legacy_refuted_cursor :
   exists sl els gs, iter_segments_legacy false sl els = Some gs /\
